@@ -29,6 +29,9 @@ MUTANTS = {
                                        sub("libmcount/mcount.c", "\tret = __mcount_exit(retval);\n\terrno = saved_errno;\n\tmcount_restore_arch_context(&arch);", "\tret = __mcount_exit(retval);\n\terrno = saved_errno;\n\t(void)arch;")],
  "m15-plthook-exit-errno": lambda: sub("libmcount/plthook.c", "\tret = __plthook_exit(retval);\n\terrno = saved_errno;", "\tret = __plthook_exit(retval);\n\t(void)saved_errno;"),
  "m16-plt-rehook-kind": lambda: sub("libmcount/misc.c", "\tif (prev_rstack->dyn_idx == MCOUNT_INVALID_DYNIDX)\n\t\t*prev_rstack->parent_loc = mcount_return_fn;\n\telse\n\t\t*prev_rstack->parent_loc = (unsigned long)plthook_return;", "\t*prev_rstack->parent_loc = mcount_return_fn;"),
+ "m17-dtor-marker-cleared": lambda: [sub("libmcount/mcount.c", "\tmtdp->recursion_marker = true;\n\tmtdp->dead = true;\n", "\tmtdp->dead = true;\n\t__mcount_guard_recursion(mtdp);\n"),
+                                     sub("libmcount/mcount.c", "\tuftrace_send_message(UFTRACE_MSG_TASK_END, &tmsg, sizeof(tmsg));\n}", "\tuftrace_send_message(UFTRACE_MSG_TASK_END, &tmsg, sizeof(tmsg));\n\t__mcount_unguard_recursion(mtdp);\n}")],
+ "m18-dtor-no-marker": lambda: sub("libmcount/mcount.c", "\tmtdp->recursion_marker = true;\n\tmtdp->dead = true;\n", "\tmtdp->dead = true;\n"),
  "m13-ctor-errno": lambda: sub("libmcount/mcount.c", "\tmcount_startup();\n\t/* the traced program must start with the errno it would have had without us */\n\terrno = saved_errno;", "\tmcount_startup();\n\t(void)saved_errno;"),
 }
 name = sys.argv[1]
